@@ -61,6 +61,40 @@ def gen_macro_dag(rng):
     return roots + blocks
 
 
+def gen_macro_reuse(rng):
+    """macros whose bodies are directives WITH children (responses with Headers/Body, requests,
+    whole methods), pasted from several places, directly and through another macro"""
+    roots = [N("JSIGHT 0.3"), N('TYPE @t\n{"x": 1}')]
+    resp = lambda c: N(str(c), [N('Headers\n{"h%d": "v"}' % c), N(rng.choice(["Body any", "Body @t", 'Body\n{"b": %d}' % c]))])
+    bodies = [
+        [resp(200)], [resp(201), N("404 any")], [N("Request", [N('Headers\n{"rh": "v"}'), N('Body\n{"r": 1}')]), resp(200)],
+        [N('Query "q=1"\n{"q": 1}'), resp(200)], [N("Description\n  shared text"), resp(400)],
+    ]
+    k = rng.randint(1, 3)
+    macros = []
+    for i in range(k):
+        body = [copy_node(n) for n in rng.choice(bodies)]
+        if i > 0 and rng.random() < 0.5:
+            body.append(N("PASTE @r%d" % rng.randrange(i)) if not any(b.text.startswith("2") or b.text.startswith("4") for b in body) else N("500 any"))
+        macros.append(N("MACRO @r%d" % i, body, explicit=True))
+    uses = []
+    for j in range(rng.randint(2, 4)):
+        m = rng.choice(["POST", "PUT", "PATCH"])
+        uses.append(N("%s /u%d" % (m, j), [N("PASTE @r%d" % rng.randrange(k))]))
+    if rng.random() < 0.5:
+        # a macro holding whole methods, pasted into two URL blocks
+        macros.append(N("MACRO @meth", [N("GET", [resp(200)]), N("DELETE", [N("204 any"), resp(404)])], explicit=True))
+        uses.append(N("URL /a", [N("PASTE @meth")]))
+        uses.append(N("URL /b/{id}", [N("PASTE @meth")]))
+    blocks = macros + uses
+    rng.shuffle(blocks)
+    return roots + blocks
+
+
+def copy_node(n):
+    return N(n.text, [copy_node(c) for c in n.children], n.explicit)
+
+
 def gen_macro_digraph(rng):
     """an arbitrary PASTE graph over 2-6 macros - chains leading into cycles, cycles, diamonds,
     unused parts - in a random declaration order, used from 1-3 places"""
@@ -111,6 +145,8 @@ def run(tier, out, model_ok, proof):
         docs.append(gen_macro_dag(rng))
     for i in range(2500 if big else 300):
         docs.append(gen_macro_digraph(rng))
+    for i in range(1500 if big else 200):
+        docs.append(gen_macro_reuse(rng))
     # a chain declared BEFORE the cycle it leads into
     docs.append([N("JSIGHT 0.3"), N("MACRO @t", [N("PASTE @c1")], explicit=True), N("MACRO @c1", [N("PASTE @c2")], explicit=True),
                  N("MACRO @c2", [N("PASTE @c1")], explicit=True), N("GET /cats", [N("200 any"), N("PASTE @t")])])
@@ -162,8 +198,8 @@ def run(tier, out, model_ok, proof):
             # the other direction, for the two errors that are about the macro graph itself: every
             # macro is defined and there is no cycle, used or not, so neither may be reported
             msg = docgen.err_text(m)
-            if im["end"] == "ok" and not meta.has_cycle_anywhere(roots) and (msg.startswith("macro not found") or msg.startswith("file dependency recursion is detected")):
-                out.violations.append({"what": "an acyclic, fully defined macro graph is rejected (%s) although the inlined form is accepted" % msg[:60],
+            if im["end"] == "ok" and not meta.has_cycle_anywhere(roots):
+                out.violations.append({"what": "the macro form is rejected (%s) although the inlined form is accepted and every macro is defined and acyclic" % msg[:70],
                                        "class": classify(roots, "graph"), "input": src})
     # tie B: expanded forests, macro table, registered enums — implementation vs model
     mism = []
